@@ -610,9 +610,8 @@ pub fn packet_oracle(prop: &str, tier: &str, seed: u64, ops: Option<&[String]>) 
                     }
                     if ops.is_none() {
                         po::c02_oversize(&mut rep);
-                        if thorough {
-                            po::c02_boundary(&mut rep);
-                        }
+                        po::c02_property_boundaries(&mut rep);
+                        po::c02_boundary(&mut rep);
                     }
                 }
                 "C09" => {
@@ -685,6 +684,7 @@ pub fn packet_oracle(prop: &str, tier: &str, seed: u64, ops: Option<&[String]>) 
     }
     if prop == "C11" && ops.is_none() {
         c11_probes(&mut rep);
+        c11_probe_max_frame(&mut rep);
         if thorough {
             c11_probe_oversize(&mut rep);
         }
@@ -966,5 +966,44 @@ fn c11_probe_oversize(rep: &mut Report) {
             }
         }
         Err(e) => rep.notes.push(format!("oversize probe: decoder refused ({:?})", e)),
+    }
+}
+
+/// C11 at the top of the size range: a frame whose remaining length is the maximum 268,435,455
+/// (v3 PUBLISH, 256 MiB of zero payload) is accepted by the blocking and poll front-ends and must
+/// re-encode to exactly the same number of bytes.
+fn c11_probe_max_frame(rep: &mut Report) {
+    use crate::sio::Term;
+    for rl in [268_435_455usize, 268_435_451] {
+        rep.cases += 1;
+        let mut frame: Vec<u8> = Vec::with_capacity(rl + 5);
+        frame.push(0x30);
+        let mut n = rl;
+        loop {
+            let mut b = (n % 128) as u8;
+            n /= 128;
+            if n > 0 {
+                b |= 0x80;
+            }
+            frame.push(b);
+            if n == 0 {
+                break;
+            }
+        }
+        frame.extend_from_slice(&[0, 1, b't']);
+        frame.resize(5 + rl, 0);
+        let input = format!("v3 PUBLISH frame with remaining length {}", rl);
+        let o = V3::poll(&frame, vec![], Term::Eof);
+        match o.res {
+            Ok((total, _, p)) => {
+                drop(frame);
+                match V3::encode(&p) {
+                    Ok(e) if e.len() == total => {}
+                    Ok(e) => rep.fail("reencode-longer", input, format!("re-encoding is {} bytes, decoder consumed {}", e.len(), total)),
+                    Err(e) => rep.fail("reencode-error", input, format!("a packet accepted by the strict decoder cannot be re-encoded: {}", e.text)),
+                }
+            }
+            Err(e) => rep.fail("max-frame-rejected", input, format!("strict decoder refused a maximum-size frame: {}", e.text)),
+        }
     }
 }
